@@ -55,19 +55,21 @@ func (o *Obligation) scriptFor(w *World, cover bool, withModel bool, cvc5 bool) 
 		b.WriteString("(set-option :produce-models true)\n")
 	}
 	b.WriteString("(set-logic ALL)\n")
-	b.WriteString(w.so.prelude())
+	var body strings.Builder
 	for _, c := range o.vc.cmds[:o.Prefix] {
 		if strings.HasPrefix(c, ";;CONSTARR ") {
 			c = expandConstArr(c, cvc5)
 		}
-		b.WriteString(c)
-		b.WriteByte('\n')
+		body.WriteString(c)
+		body.WriteByte('\n')
 	}
 	if cover {
-		b.WriteString("(assert " + o.Goal + ")\n")
+		body.WriteString("(assert " + o.Goal + ")\n")
 	} else {
-		b.WriteString("(assert (not " + o.Goal + "))\n")
+		body.WriteString("(assert (not " + o.Goal + "))\n")
 	}
+	b.WriteString(w.so.prelude(body.String()))
+	b.WriteString(body.String())
 	b.WriteString("(check-sat)\n")
 	if withModel {
 		b.WriteString("(get-model)\n")
